@@ -188,6 +188,13 @@ Proof. unfold layout_ok. intros H. apply N.leb_le in H. lia. Qed.
 Lemma layout_ok_mono Esz B B' : B' <= B -> layout_ok Esz B = true -> layout_ok Esz B' = true.
 Proof. unfold layout_ok. intros Hle H. apply N.leb_le in H. apply N.leb_le. nia. Qed.
 
+Lemma hb_ok_cap_bound Esz t : hb_ok Esz t -> hgl t + hn t <= isize_max.
+Proof.
+  intros (H1 & _ & _ & _ & H4). pose proof (bcap_le (hB t)).
+  assert (hB t <= isize_max) by (destruct H4 as [->|H4]; [pose proof usize_max_big; lia|apply (layout_ok_bound Esz); exact H4]).
+  lia.
+Qed.
+
 Lemma hb_ok_gl_bound Esz t : hb_ok Esz t -> hgl t <= isize_max /\ hn t <= isize_max.
 Proof.
   intros (H1 & _ & _ & _ & H4). pose proof (bcap_le (hB t)).
